@@ -29,11 +29,11 @@ m = dict(
         add_only=True,
     ),
     engines=[
-        dict(name="rapidcheck", path="harness/common/pbt_rc.cpp", serves_properties=sorted(checks.PROPS),
+        dict(name="rapidcheck", path="harness/common/pbt_rc.cpp", serves_properties=sorted(checks.ready()),
              kind_free_text="property-based testing: generators + shrinking; every draw of a harness goes through rapidcheck "
                             "generators (pbt::Src), failures are saved as choice logs that replay without the library"),
         dict(name="libFuzzer", path="harness/fuzz_*.cpp",
-             serves_properties=sorted(p for p, s in checks.PROPS.items() if any(u["kind"] == "fuzz" for u in s["units"])),
+             serves_properties=sorted(p for p, s in checks.PROPS.items() if p in checks.ready() and any(u["kind"] == "fuzz" for u in s["units"])),
              kind_free_text="coverage-guided fuzzing (clang -fsanitize=fuzzer,address,undefined) with the semantic oracle inside the target"),
     ],
     checks=[],
@@ -42,7 +42,7 @@ m = dict(
           "(content-hashed cache under build/). See DESIGN.md.",
 )
 for pid in ALL:
-    spec = checks.PROPS.get(pid)
+    spec = checks.PROPS.get(pid) if pid in checks.ready() else None
     if spec is None:
         m["not_applicable"].append(dict(property_id=pid, reason=checks.NOT_YET.get(pid, "check not built yet (work in progress); not claimed")))
         continue
